@@ -104,6 +104,69 @@ class Model:
     def role_of_field(self, tname):
         return self.roles.get(tname)
 
+    # ------------------------------------------------------------------ throwing helpers
+    def thrower_type(self, g):
+        """exception type when g is a function that does nothing but throw (the out-of-line failure path of a check):
+        no return statement, no branching, one throw expression as its last statement; else None"""
+        if g is None or g.is_lambda:
+            return None
+        throws = [n for n in g.nodes if n['k'] == 'CXXThrowExpr' and not n.get('rethrow')]
+        if len(throws) != 1:
+            return None
+        if any(n['k'] in ('ReturnStmt', 'IfStmt', 'ForStmt', 'WhileStmt', 'DoStmt', 'CXXForRangeStmt', 'SwitchStmt', 'CXXTryStmt',
+                          'ConditionalOperator') for n in g.nodes):
+            return None
+        return throws[0].get('thrown')
+
+    def throw_sites(self, f):
+        """[(node, exception type, bases)] throw expressions of f and calls of pure throwing helpers"""
+        out = []
+        for n in f.nodes:
+            if n['k'] == 'CXXThrowExpr' and not n.get('rethrow'):
+                out.append((n['i'], n.get('thrown'), n.get('thrownbases', [])))
+            elif n['k'] in ('CallExpr', 'CXXMemberCallExpr') and 'callee' in n:
+                g = f.unit.function_for_decl(n['callee'])
+                t = self.thrower_type(g) if g is not None and g.tname.startswith(NS) else None
+                if t:
+                    th = [x for x in g.nodes if x['k'] == 'CXXThrowExpr'][0]
+                    out.append((n['i'], t, th.get('thrownbases', [])))
+        return out
+
+    # ------------------------------------------------------------------ label helpers, found by what they do
+    def label_helpers(self):
+        """(setter, getter, undirected setter) qualified names of the non-public helpers of the storage classes:
+        setter(Edge key, label): its only state effect is  store[key] = label;
+        getter(Edge key, bool): reads the store with the checked accessor on its key;
+        undirected setter(i, j, label): forwards to the setter.  Resolved from the bodies, so a rename is followed."""
+        if hasattr(self, '_label_helpers'):
+            return self._label_helpers
+        from .events import events_of
+        setter = getter = usetter = None
+        for f in self.fns:
+            if f.record != LDG or f.access == 'public' or f.is_lambda or f.is_ctor:
+                continue
+            if f.recordargs == 'BaseGraph::NoLabel' and (setter and getter):
+                continue
+            ev = events_of(self, f)
+            kinds = [e.kind for e in ev.state_writes()]
+            if len(f.params) == 2 and kinds == ['L.set'] and not f.is_const:
+                e = ev.state_writes()[0]
+                if e.args[0] == ('var', f.params[0]) and e.args[1] == ('var', f.params[1]):
+                    setter = f.tname
+            if len(f.params) == 2 and f.is_const and f.cptypes[1] == 'bool' and not kinds and \
+                    any(e.kind == 'L.read' and e.args[0] == ('var', f.params[0]) for e in ev.events):
+                getter = f.tname
+        setter = setter or LDG + '::_setLabel'
+        getter = getter or LDG + '::_getLabel'
+        for f in self.fns:
+            if f.record != LUG or f.access == 'public' or f.is_lambda or len(f.params) != 3:
+                continue
+            if any(self.callee_decl(f, n['i'])['tname'] == setter for n in f.nodes if 'callee' in n):
+                usetter = f.tname
+        usetter = usetter or LUG + '::setLabel'
+        self._label_helpers = (setter, getter, usetter)
+        return self._label_helpers
+
     def total_field_of(self, cls):
         for f in self.role_field.get('T', ()):
             if f.startswith(cls + '::'):
@@ -171,6 +234,10 @@ class Model:
         if fn.is_lambda:
             return False
         if fn.record is None:
+            if '::detail::' in fn.tname or '::internal::' in fn.tname:
+                return False        # implementation namespaces: helpers whose callers carry the obligations
+            if not any('BaseGraph::' in c and 'Graph' in c for c in fn.cptypes) and fn.tname.startswith(NS + 'algorithms::'):
+                return False        # an algorithm helper without a graph argument has nothing to validate against
             return fn.tname.startswith(NS + 'io::') or fn.tname.startswith(NS + 'algorithms::')
         return fn.record in GRAPH_CLASSES and fn.access == 'public'
 
